@@ -91,6 +91,11 @@ def entries():
     L.append(ent("dict.relaxed", DP, D % "True", DV, pre=["len(vb) <= 2"]))
     L.append(ent("dict.relaxed.first", DP, D % '"first"', DV, pre=["len(vb) <= 2"]))
     L.append(ent("dict.relaxed.mid", DP, D % '"mid"', DV, pre=["len(vb) <= 2"]))
+    D3 = '("dict", [("a", False, %s), ("b", True, ("none",)), ("c", True, ("bool", Nil))], %%s)' % INT_A
+    L.append(ent("dict.3keys", "a: int, pa: bool, pb: bool, pc: bool, px: bool, py: bool, va: int, vc: bool", D3 % "False",
+                 "mkdict(('a', pa, va), ('b', pb, None), ('c', pc, vc), ('x', px, 0), ('y', py, 0))"))
+    L.append(ent("dict.3keys.relaxed", "a: int, pa: bool, pb: bool, pc: bool, px: bool, va: int, vc: bool", D3 % '"mid"',
+                 "mkdict(('a', pa, va), ('b', pb, None), ('c', pc, vc), ('x', px, 0))"))
     L.append(ent("dict.untyped", "pa: bool, " + W, '("dict", None)', "mkdict(('a', pa, w))",
                 pre=["not isinstance(w, (str, bytes)) or len(w) <= 2"], covers=("accept",)))
     L.append(ent("dict.empty", "pa: bool", '("dict", [], False)', "mkdict(('a', pa, 0))"))
@@ -117,6 +122,8 @@ def entries():
     # ---- any / alias
     ANY = '("any", [%s, ("str", Nil, (k, Nil, Nil), Nil, Nil, Nil), ("none",)])' % INT_A
     L.append(ent("any.3", "a: int, k: int, " + W, ANY, "w", pre=["not isinstance(w, (str, bytes)) or len(w) <= 2"]))
+    L.append(ent("any.dup", "a: int, " + W, '("any", [%s, %s, ("none",)])' % (INT_A, INT_A), "w",
+                 pre=["not isinstance(w, (str, bytes)) or len(w) <= 2"]))
     L.append(ent("any.empty", W, '("any", None)', "w", pre=["not isinstance(w, (str, bytes)) or len(w) <= 2"], covers=("accept",)))
     L.append(ent("any.nested", "a: int, b: int, v: int", '("any", [%s, ("any", [%s, ("none",)])])' % (INT_A, INT_B), "v", covers=("accept",)))
     L.append(ent("any.in.list", "a: int, b: int, n: int, v0: int, v1: int",
